@@ -501,5 +501,14 @@ pub fn gen_c01(rng: &mut Rng, thorough: bool) -> Vec<Tagged> {
         let t = rand_target(rng, Sh::Flat(outn), Obj::MSE);
         out.push(("net-bwd-two-blocks".into(), Case::Net(spec, NetCmd::Backward(x, t))));
     }
+    // feedback blocks that contain a max-pool layer (1x1 and real windows), with and without skips
+    for r in 0..(if thorough { 64 } else { 16 }) {
+        if let Some((mut spec, input, outsh)) = crate::gen_net2::pool_block_net(rng, r, 2, false) {
+            spec.obj = Obj::MSE;
+            let x = rand_input(rng, input, 2);
+            let t = rand_target(rng, outsh, Obj::MSE);
+            out.push(("net-bwd-block-with-maxpool".into(), Case::Net(spec, NetCmd::Backward(x, t))));
+        }
+    }
     out
 }
